@@ -108,9 +108,9 @@ def run(P, item):
             ks, qs = view(*snap[n]); pre[n] = (list(ks), list(qs), [v for k, v in (snap[n][0].items if snap[n][0] is not None else [])])
         # ---- the request (optionally issued twice, with the caches re-populated in between: the registry is stateful)
         pred = Pred(ctx)
-        def request():
+        def request(kind_override=None):
             if mode == 'group':
-                kind, name = item['kind2'], item['name']
+                kind, name = (kind_override or item['kind2']), item['name']
                 fn = {'tag': 'invalidate_by_tag', 'event': 'invalidate_by_event', 'dep': 'invalidate_by_dependency', 'cache': 'invalidate_cache'}[kind]
                 f = P.resolve('cachelito_core::invalidation::' + fn) or P.resolve('invalidation::' + fn)
                 if f is None: raise Unsupported('free function ' + fn)
@@ -154,7 +154,7 @@ def run(P, item):
                     tl.append(xs); calls.setdefault(name, []).append(cargs)
                 args[name] = tl; used.append(name)
             snap.update(snapshot(P, log, subjs, [n for n in late if n in subj_names]))
-            pre2 = snap_now(); ret2 = request(); post2 = snap_now(); follow2 = follow_up()
+            pre2 = snap_now(); ret2 = request(item.get('kind2b')); post2 = snap_now(); follow2 = follow_up()
             second = dict(pre=pre2, post=post2, ret=ret2, follow=follow2, used=list(used))
         if second is not None:
             return dict(subjs=subjs, used=used_first, pre=pre, post=post, ret=ret, pred=pred, args=args, follow=follow, second=second, outcomes=outcomes)
@@ -189,7 +189,10 @@ def oracle(item, d, claims, classes, ctx):
     _oracle_round(item, d, claims, classes, ctx, '')
     if d.get('second'):
         d2 = dict(d); d2.update(d['second'])
-        _oracle_round(item, d2, claims, classes, ctx, ' (second identical request after re-populating)')
+        if item.get('kind2b'):
+            _oracle_round(dict(item, kind2=item['kind2b']), d2, claims, classes, ctx, f" (second request, by {item['kind2b']}, for the same name after re-populating)")
+        else:
+            _oracle_round(item, d2, claims, classes, ctx, ' (second identical request after re-populating)')
 
 
 def _oracle_round(item, d, claims, classes, ctx, suffix):
@@ -259,7 +262,7 @@ def inv_witness(ctx, model, item, d, cname):
         if z3.is_true(v): return True
         if z3.is_false(v): return False
         return str(v)
-    w = dict(mode=item['mode'], kind2=item.get('kind2'), name=item.get('name'), cache=cname, unused=sorted(item.get('unused', [])),
+    w = dict(mode=item['mode'], kind2=item.get('kind2'), kind2b=item.get('kind2b'), name=item.get('name'), cache=cname, unused=sorted(item.get('unused', [])),
              fills={n: [[ev(x) for x in t] for t in ts] for n, ts in d['args'].items()},
              pred=[(cn, render_key(k, ev), ev(b)) for cn, k, b in d['pred'].memo], ret=(ev(d['ret']) if d['ret'] is not None and not isinstance(d['ret'], Agg) else None),
              late=sorted(item.get('late', [])), repeat=bool(item.get('repeat')), post_keys={n: [render_key(k, ev) for k in d['post'][n][0]] for n in d['used']}, post_queue={n: [render_key(k, ev) for k in d['post'][n][1]] for n in d['used']},
@@ -302,6 +305,7 @@ def replay(f, w):
         for n, ts in w['fills'].items():
             if n in late:
                 for t in ts: L.append(callline(n, t))
+        if w.get('kind2b'): reqline = {'tag': 'inv_tag', 'event': 'inv_event', 'dep': 'inv_dep', 'cache': 'inv_cache'}[w['kind2b']] + ' ' + w['name']
         L.append(reqline)
     names = {}
     for n in w['fills']:
@@ -325,7 +329,11 @@ def replay(f, w):
     dev = []
     for n in names:
         it = subs[n]['intended']; stored = [str(t[0]) if len(t) == 1 else '|'.join(map(str, t)) for i_, t in enumerate(w['fills'][n]) if was_stored(n, i_)]
-        if w['mode'] == 'group': exp = [] if matches(w['kind2'], w['name'], subs[n]) else stored
+        if w['mode'] == 'group':
+            k_last = w.get('kind2b') or w['kind2']
+            if matches(k_last, w['name'], subs[n]): exp = []
+            elif w.get('kind2b') and matches(w['kind2'], w['name'], subs[n]): exp = stored[:1]      # emptied by the first request, then its first call repeated
+            else: exp = stored
         elif w['mode'] == 'with': exp = [k for k in stored if not any(b and cn == w['name'] and kk == k for cn, kk, b in w['pred'])] if it['cache_name'] == w['name'] else stored
         else: exp = [k for k in stored if not any(b and cn == it['cache_name'] and kk == k for cn, kk, b in w['pred'])]
         if sorted(exp) != sorted(got.get(n, [])): dev.append(f"{n}: keys {sorted(got.get(n, []))} expected {sorted(exp)}")
@@ -335,13 +343,21 @@ def replay(f, w):
         exp_after = sorted(map(str, fresh[-lim:]))
         if sorted(after) != exp_after: dev.append(f"{c}: after {lim + 1} further stores the cache holds {sorted(after)} (limit {lim}; expected {exp_after})")
     if w['mode'] == 'group' and inv:
-        nm = len([n for n in w['fills'] if w['fills'][n] and matches(w['kind2'], w['name'], subs[n])])
-        exp_ret = str(nm) if w['kind2'] != 'cache' else ('true' if nm else 'false')
         for j, iv in enumerate(inv):
-            if iv.split()[1] != exp_ret: dev.append(f"request #{j + 1} returned {iv.split()[1]} expected {exp_ret}")
-    if not dev and 'queue' in f.get('clause', '') and w['mode'] in ('with', 'all_with'):
+            kj = w['kind2b'] if (j >= 1 and w.get('kind2b')) else w['kind2']
+            nm = len([n for n in w['fills'] if w['fills'][n] and matches(kj, w['name'], subs[n])])
+            exp_ret = str(nm) if kj != 'cache' else ('true' if nm else 'false')
+            if iv.split()[1] != exp_ret: dev.append(f"request #{j + 1} (by {kj}) returned {iv.split()[1]} expected {exp_ret}")
+    if not dev and w['mode'] in ('with', 'all_with') and ('queue' in f.get('clause', '') or 'removed exactly when' in f.get('clause', '')):
         d2, lines2 = diff_tail(w, subs, callline)
         if d2: return True, 'native run deviates from a run in which the removed keys were never stored: ' + d2, lines2
+        # the witness may need entries that have outlived their ttl (not yet looked up again): same comparison after waiting
+        c_ = w['cache']; ttl_ = subs[c_]['intended']['ttl'] if c_ in subs else None
+        if ttl_ is not None and ttl_ <= 2:
+            d2, lines2 = diff_tail(w, subs, callline, tries=12, sleep_ms=ttl_ * 1000 + 250)
+            if d2: return True, f'native run (request issued {ttl_}s + 250ms after the stores) deviates from a run in which the removed keys were never stored: ' + d2, lines2
+            d2, lines2 = stale_scenario(w, subs, callline)
+            if d2: return True, 'native run deviates from a run in which the removed key was never stored: ' + d2, lines2
     return (len(dev) > 0), ('native run deviates from the attribute lists: ' + '; '.join(dev)) if dev else 'native run behaves as the attribute lists prescribe', lines
 
 
@@ -360,7 +376,43 @@ def gen_tail(seed, live, lim):
     return tail + sorted(live)
 
 
-def diff_tail(w, subs, callline, tries=120):
+def stale_scenario(w, subs, callline):
+    """one matching entry that has outlived its ttl (but was used after younger entries were stored) next to live ones:
+    store S; wait 0.6 ttl; store the others; hit S; wait 0.5 ttl (S expired, the others alive); request matching S only;
+    fill up with fresh keys; probe the others.  Reference: the same without S.  Sync engines only (sub-second clocks)."""
+    from . import replay as R
+    c = w['cache']
+    if c not in w['fills'] or len(w['fills'][c]) < 2: return None, []
+    it = subs[c]['intended']
+    if subs[c]['flavour'] != 'G' or not it['ttl'] or not it['limit'] or it['policy'] not in ('LRU', 'ARC', 'TLRU') or len(subs[c]['args']) != 1 or subs[c]['recv']: return None, []
+    ttl = it['ttl']; lim = it['limit']; cn = it['cache_name']
+    S = w['fills'][c][0]; others = w['fills'][c][1:lim]
+    if w['mode'] == 'with': req = f"inv_with {cn} {S[0]}"
+    else: req = f"inv_all_with {cn}:{S[0]}"
+    fresh = [810001 + i for i in range(lim - len(others))]
+    def script(with_s):
+        L = ['scenario subj']
+        if with_s: L.append(callline(c, S))
+        L.append(f'sleep_ms {int(ttl * 600)}')
+        L += [callline(c, t) for t in others]
+        if with_s: L.append(callline(c, S))
+        L.append(f'sleep_ms {int(ttl * 500)}'); L.append(req)
+        L += [f'call 0 {c} 0 {x}' for x in fresh] + [callline(c, t) for t in others] + ['end']
+        outs, err = R.run_scenarios('\n'.join(L) + '\n', timeout=60)
+        if not outs: return None, []
+        ex = [int(l.split()[1]) for l in outs[0] if l.startswith('execs ')]
+        d = [ex[i] - (ex[i - 1] if i else 0) for i in range(len(ex))]
+        return d[-len(others):], outs[0]
+    a, la = script(True); b, lb = script(False)
+    if a is None or b is None: return None, []
+    if a != b:
+        j = next(i for i, (x, y) in enumerate(zip(a, b)) if x != y)
+        return (f"{c}: {S[0]} was stored, used again, and had outlived its ttl when the request matching it was issued; after {len(fresh)} further store(s) the live entry {others[j][0]} {'runs the body again' if a[j] else 'is served'} "
+                f"but {'runs the body again' if b[j] else 'is served'} when {S[0]} was never stored"), la + ['--- reference run without the stale key ---'] + lb
+    return None, []
+
+
+def diff_tail(w, subs, callline, tries=120, sleep_ms=0):
     """C13 'as if the removed entries had never been stored': the solver's witness says the eviction queue still lists a removed
     key.  The queue is private to the expansion, so the native confirmation is differential: the witness history (fills, request)
     followed by a tail of further calls is compared with the history without the removed keys followed by the same tail; the two
@@ -383,7 +435,7 @@ def diff_tail(w, subs, callline, tries=120):
     for seed in range(tries):
         tail = gen_tail(seed, [t[0] for t in surv], lim)
         def script(fills):
-            L = ['scenario subj'] + [callline(c, t) for t in fills] + [req] + [f'call 0 {c} 0 {x}' for x in tail] + ['end']
+            L = ['scenario subj'] + [callline(c, t) for t in fills] + ([f'sleep_ms {sleep_ms}'] if sleep_ms else []) + [req] + [f'call 0 {c} 0 {x}' for x in tail] + ['end']
             outs, err = R.run_scenarios('\n'.join(L) + '\n', timeout=60)
             if not outs: return None, []
             ex = [int(l.split()[1]) for l in outs[0] if l.startswith('execs ')]
